@@ -868,10 +868,12 @@ THEOREMS_FULL = {
 
 
 def semantic_check(ctx, sdrv, items, reals, kind, rng):
-    """The statement `C01GroundFO.CorrectFO` is not a theorem yet: it is CHECKED per program by executing the Lean
-    definitions (`Drivers.GroundFOCheck`): in several worlds every reported key of the model evaluates to `Sem.wfm` of the
-    Herbrand instantiation `GroundFO.inst`, and every instance that is not reported is false - under the recorded
-    schedule and under an arbitrary one."""
+    """The statement `C01GroundFO.CorrectFO` is CHECKED per program by executing the Lean definitions
+    (`Drivers.GroundFOCheck`): in several worlds every reported key of the model evaluates to `Sem.wfm` of the Herbrand
+    instantiation `GroundFO.inst`, and every instance that is not reported is false - under the recorded schedule and
+    under an arbitrary one.  It is also PROVED for the model in partial-correctness form (`C01GroundFOFull.lean`:
+    whenever the model returns; hypotheses `SpecOK`, decided per program below); the executable check stays as the
+    independent test of the statement and covers termination on the programs run."""
     if kind == "all":
         ctx.proof_phase(MODULE_SPEC, THEOREMS_SPEC)
         ctx.proof_phase(MODULE_TRUTH, THEOREMS_TRUTH)
